@@ -105,7 +105,11 @@ func (c *trCtx) block(list []ast.Stmt, k trCont) (string, error) {
 	for n, k := range c.assignCount {
 		savedCount[n] = k
 	}
-	defer func() { c.assignCount = savedCount }()
+	savedFrom := map[string]string{}
+	for n, k := range c.opaqueFrom {
+		savedFrom[n] = k
+	}
+	defer func() { c.assignCount, c.opaqueFrom = savedCount, savedFrom }()
 	c.cur++
 	inner := c.cur
 	s, err := c.stmts(list, func() (string, error) {
